@@ -4,7 +4,9 @@ package c19
 
 import (
 	"fmt"
+	"math/rand"
 	"runtime/debug"
+	"strings"
 
 	"go.lstv.dev/util/internal/vsim/core"
 	"go.lstv.dev/util/internal/vsim/sched"
@@ -81,6 +83,8 @@ func (Prop) Prelude(o core.RunOpts) *core.Result {
 var taskCounts = [...]int{1, 2, 2, 2, 3, 3, 4, 4, 8, 8, 16, 64}
 
 // Run implements core.Property.
+var errCallback = fmt.Errorf("vsim: injected callback panic")
+
 func (Prop) Run(t *core.Tape, o core.RunOpts) *core.Result {
 	res := core.NewResult()
 	// ---- swarm configuration, all from the tape
@@ -172,6 +176,7 @@ func (Prop) Run(t *core.Tape, o core.RunOpts) *core.Result {
 	and = [2]uint64{^uint64(0), ^uint64(0)}
 	total := 0
 	returned := 0
+	callbackPanicked := false
 
 	// no garbage collection while a run is in progress: the address-based race hooks rely
 	// on no heap address being reused within a run
@@ -183,6 +188,38 @@ func (Prop) Run(t *core.Tape, o core.RunOpts) *core.Result {
 			if s.Aborted() {
 				return
 			}
+			// an API of the tree under test that lends the generator to a callback: the callback
+			// draws a few values and, one time in three, panics (the harness recovers, as a
+			// request handler would); whatever the library does then, the callers that follow
+			// must still be serialised
+			if len(ExtraCallbacks) > 0 && t.Bool(1, 6) {
+				k := t.Choose(len(ExtraCallbacks))
+				draws := 1 + t.Choose(3)
+				boom := t.Bool(1, 3)
+				res.Probes.Inc("extra_callback_api_called")
+				func() {
+					defer func() {
+						if r := recover(); r != nil {
+							if r != errCallback {
+								panic(r)
+							}
+							callbackPanicked = true
+							res.Faults.Inc("callback_panic_injected")
+						}
+					}()
+					ExtraCallbacks[k](func(r *rand.Rand) {
+						for d := 0; d < draws && !s.Aborted(); d++ {
+							r.Int63()
+						}
+						if boom && !s.Aborted() {
+							panic(errCallback)
+						}
+					})
+				}()
+				if s.Aborted() {
+					return
+				}
+			}
 			// mostly RandomID; sometimes another exported function of the package that hands
 			// out IDs, if the tree under test has one
 			var ids []uu.ID
@@ -191,6 +228,13 @@ func (Prop) Run(t *core.Tape, o core.RunOpts) *core.Result {
 				want := 1 + t.Choose(4)
 				if t.Bool(1, 4) {
 					want = 17 + t.Choose(48) // batch APIs tend to change behaviour above some size
+				}
+				if t.Bool(1, 64) {
+					// ... and again at the sizes where they start to parallelise or to chunk
+					big := [...]int{255, 256, 257, 1000, 1023, 1024, 1025, 4095, 4096, 4097, 5000, 8191, 12345}
+					want = big[t.Choose(len(big))]
+					s.MaxSteps += int64(want) * 16
+					res.Probes.Inc("extra_id_source_big_batch")
 				}
 				ids = ExtraSources[k](want)
 				res.Probes.Inc("extra_id_source_called")
@@ -243,11 +287,26 @@ func (Prop) Run(t *core.Tape, o core.RunOpts) *core.Result {
 			s.Fail("E2-bit-coverage", "bit-coverage", fmt.Sprintf("over %d IDs the constant bit positions are %016x/%016x, expected exactly the six version/variant bits %016x/%016x", total, stuck[0], stuck[1], wantStuck[0], wantStuck[1]))
 		}
 	}
+	if s.Viol != nil && callbackPanicked && (s.Viol.Invariant == "E1-stuck" || s.Viol.Invariant == "E1-progress") {
+		// a library that does not release its lock when a callback panics blocks everybody
+		// afterwards: a liveness defect of its own kind, not a race, a duplicate or a wrong
+		// layout; no verdict for this run
+		s.Viol = nil
+		res.Probes.Inc("no_verdict_stuck_after_callback_panic")
+	}
 	if s.Viol != nil {
 		s.Viol.Property = "C19"
 		res.Violation = s.Viol
 	}
 	res.Infra = s.Infra
+	if strings.Contains(res.Infra, "goroutines alive at once") && res.Violation == nil {
+		// more goroutines than the simulator models in one run (a parallel batch API asked for
+		// a big batch by many callers at once): this run is abandoned, counted, and says
+		// nothing; the check as a whole gives up (exit 2) if that happens to more than one run
+		// in twenty
+		res.Infra = ""
+		res.Probes.Inc("no_verdict_goroutine_bound")
+	}
 	if res.Infra != "" && entropy != vrand.EUniform && res.Violation == nil {
 		// a rejection loop that never ends because the injected entropy is stuck is the
 		// fault's doing, not the code's and not the harness's: no verdict for this run
